@@ -1,0 +1,18 @@
+//! Verification hooks for the validator network (compiled only with `--cfg era_consensus_verif`).
+#![allow(missing_docs, unreachable_pub, clippy::missing_docs_in_private_items)]
+use rand::Rng;
+use zksync_consensus_roles::{node, validator};
+
+use super::handshake;
+use crate::verif::{wire_type, WireType};
+
+pub(crate) fn wire_types(rng: &mut impl Rng) -> Vec<WireType> {
+    let val_key: validator::SecretKey = rng.gen();
+    vec![wire_type(
+        "consensus::Handshake",
+        vec![
+            handshake::Handshake { session_id: val_key.sign_msg(node::SessionId(rng.gen::<[u8; 32]>().to_vec())), genesis: rng.gen() },
+            handshake::Handshake { session_id: val_key.sign_msg(node::SessionId(vec![])), genesis: rng.gen() },
+        ],
+    )]
+}
